@@ -268,7 +268,7 @@ func (g *Gen) boundaryTable() []MsgSpec {
 		m.Value = hex.EncodeToString(make([]byte, vl))
 		out = append(out, m)
 	}
-	addrs := []string{"", " ", "panacea1", "panacea1qqqqqqqqqqqqqqqqqqqqqqqqqqqqqqqqqqqqqq", "cosmos1qyqszqgpqyqszqgpqyqszqgpqyqszqgpjnp7du", strings.ToUpper(o),
+	addrs := []string{"", " ", "\t", " \n ", "\u3000", "\u00a0", "panacea1", "panacea1qqqqqqqqqqqqqqqqqqqqqqqqqqqqqqqqqqqqqq", "cosmos1qyqszqgpqyqszqgpqyqszqgpqyqszqgpjnp7du", strings.ToUpper(o),
 		sdk.AccAddress(make([]byte, 1)).String(), sdk.AccAddress(make([]byte, 32)).String(), sdk.AccAddress(make([]byte, 255)).String(), sdk.AccAddress(make([]byte, 256)).String(), o + "x", "panacea1!@#"}
 	for _, ad := range addrs {
 		out = append(out, M("aol.CreateTopic", "topic", "bt", "owner", ad))
